@@ -364,6 +364,32 @@ func Run(tier string, sh lib.Shard, rep *lib.Report) {
 		}
 		r := m.Run(rep)
 		rep.Sample(3, map[string]any{"model": m.Name, "result": r.Describe()})
+		if prop == "C05" {
+			// start from non-initial states too: "recovery has begun" and "re-tripped out of recovery"
+			// (the second needs eleven operations from the initial state, beyond the depth bound)
+			op := func(name string) int {
+				for i, n := range m.Ops {
+					if n == name {
+						return i
+					}
+				}
+				return -1
+			}
+			bad := op(fmt.Sprintf("Req(%d,0s)", cfg.badCode))
+			ok := op("Req(200,0s)")
+			advF := op(fmt.Sprintf("Advance(%v)", cfg.fallback))
+			advR := op(fmt.Sprintf("Advance(%v)", cfg.recovery/2))
+			if bad >= 0 && ok >= 0 && advF >= 0 && advR >= 0 {
+				for _, root := range [][]int{{bad, advF, ok}, {bad, advF, ok, advR, ok, advR, bad}} {
+					m2 := model(cfg, prop, tier, 5) // five more operations beyond the prepared state
+					m2.Name += fmt.Sprintf("/from-prepared-state-%d", len(root))
+					m2.Shard, m2.ShardLevel = sh, 2
+					m2.Roots = [][]int{root}
+					m2.Run(rep)
+					rep.Count("prepared_state_searches")
+				}
+			}
+		}
 	}
 	rep.Nontrivial = rep.Counters["requests_shielded_while_tripped"] + rep.Counters["requests_passed_during_recovery"] + rep.Counters["requests_refused_during_recovery"]
 }
